@@ -26,22 +26,22 @@ import (
 
 type pktWeights struct {
 	send, relay, ackRelay, replay, mutateRecv, mutateAck, ackConflict, commit, update int
-	tss int // traffic with the pure TSS counterparty
-	toggle int // client lifecycle proposals (toggle / upgrade) followed by replays
-	evm int // traffic with and forgeries against the BSC / ETH secured counterparties
-	restart int // genesis export -> import restarts
-	plant int // planted high-sequence packets (commitment injected with the keeper setter)
-	cbErr int // percentage of sends whose destination callback makes CallPacket return an error
+	tss                                                                               int // traffic with the pure TSS counterparty
+	toggle                                                                            int // client lifecycle proposals (toggle / upgrade) followed by replays
+	evm                                                                               int // traffic with and forgeries against the BSC / ETH secured counterparties
+	restart                                                                           int // genesis export -> import restarts
+	plant                                                                             int // planted high-sequence packets (commitment injected with the keeper setter)
+	cbErr                                                                             int // percentage of sends whose destination callback makes CallPacket return an error
 }
 
 type pktGen struct {
-	w        *pktWorld
-	rng      *rand.Rand
-	id       string
-	wt       pktWeights
-	accRecv  []*pktRecvRec // accepted receives (for replays)
-	accAcks  []*pktAckRec
-	steps    int
+	w       *pktWorld
+	rng     *rand.Rand
+	id      string
+	wt      pktWeights
+	accRecv []*pktRecvRec // accepted receives (for replays)
+	accAcks []*pktAckRec
+	steps   int
 }
 
 type pktAckRec struct {
@@ -180,12 +180,14 @@ func (g *pktGen) setup(variant int) {
 		}
 		w.register(c, 0, others)
 		w.register(c, 1, others[:1])
-		w.register(c, pktT, others) // the TSS account is a registered relayer for every counterparty
+		w.register(c, pktT, others) // the TSS accounts are registered relayers for every counterparty
+		w.register(c, pktT2, others)
 	}
 	w.commitAll()
 	for _, c := range w.chains {
 		w.fullDump(c)
 	}
+	g.prologue()
 	if variant%4 == 3 {
 		// big packet stores: 260 commitments on chain 1, 260 receipts and 260 acknowledgements on chain 0 — beyond any
 		// page size an export could silently apply — followed straight away by a restart of both and replays spread over
@@ -435,7 +437,7 @@ func (g *pktGen) doRelay() {
 	height := clienttypes.NewHeight(s.src.revision(), h)
 	tag := "genuine"
 	if s.dst.kind[s.src.name] == "tss" {
-		signer, proof, tag = g.tssSignerProof(s.dst, signer, proof)
+		signer, proof, tag = g.tssSignerProof(s.dst, s.src.name, signer, proof)
 	}
 	out := w.recv(s.dst, s.bz, proof, height, signer, tag)
 	if out.ok {
@@ -479,7 +481,7 @@ func (g *pktGen) doAckRelay() {
 	signer := g.rng.Intn(3) // acknowledgements need no registered signer
 	tag := "genuine"
 	if s.src.kind[s.dst.name] == "tss" {
-		signer, proof, tag = g.tssSignerProof(s.src, signer, proof)
+		signer, proof, tag = g.tssSignerProof(s.src, s.dst.name, signer, proof)
 	}
 	out := w.ack(s.src, s.bz, s.ackBz, proof, height, signer, tag)
 	if out.ok {
@@ -1188,7 +1190,7 @@ func (g *pktGen) evmRelayIn(ev *pktEvm) {
 	signer := 0
 	tag := "evm-genuine-" + ev.kind
 	if ev.host.kind[ev.name] == "tss" {
-		signer, proof, tag = g.tssSignerProof(ev.host, signer, proof)
+		signer, proof, tag = g.tssSignerProof(ev.host, ev.name, signer, proof)
 	}
 	out := w.recv(ev.host, ep.bz, proof, g.evmHeight(h), signer, tag)
 	if out.ok && ep.class != "" && strings.HasPrefix(tag, "evm-genuine") {
@@ -1274,7 +1276,7 @@ func (g *pktGen) evmRelayAck(ev *pktEvm) {
 	signer := g.rng.Intn(3)
 	tag := "evm-genuine-" + ev.kind
 	if ev.host.kind[ev.name] == "tss" {
-		signer, proof, tag = g.tssSignerProof(ev.host, signer, proof)
+		signer, proof, tag = g.tssSignerProof(ev.host, ev.name, signer, proof)
 	}
 	out := w.ack(ev.host, ep.bz, ep.ackBz, proof, g.evmHeight(h), signer, tag)
 	if out.ok && ep.class != "" && strings.HasPrefix(tag, "evm-genuine") {
@@ -1473,9 +1475,11 @@ func (g *pktGen) evmForgeRecv(ev *pktEvm) {
 		}
 	}
 	if g.rng.Intn(6) == 0 {
-		// shifted-word: forge the message first (hash H ending in zero bytes — mirror: starting with zero bytes), let the
-		// contract really hold the shifted word 0^k‖H[0..32-k) (mirror: H[k..]‖0^k) under the slot, prove that slot genuinely
-		mirror := g.rng.Intn(3) == 0
+		g.evmShiftedRecv(ev, g.rng.Intn(3) == 0)
+		return
+	}
+	if false {
+		mirror := false
 		class := []string{"trail0", "trail0", "trail00"}[g.rng.Intn(3)]
 		if mirror {
 			class = []string{"lead0", "lead0", "lead00"}[g.rng.Intn(3)]
@@ -1554,52 +1558,7 @@ func (g *pktGen) evmForgeAck(ev *pktEvm) {
 		return
 	}
 	if g.rng.Intn(6) == 0 {
-		var target *pktEvmPacket
-		for _, a := range ev.out {
-			if !a.acked && !a.ackStored {
-				target = a
-			}
-		}
-		if target == nil {
-			g.evmSendOutWith(ev, -1, 0)
-			for _, a := range ev.out {
-				if !a.acked && !a.ackStored {
-					target = a
-				}
-			}
-		}
-		if target != nil {
-			mirror := g.rng.Intn(3) == 0
-			class := []string{"trail0", "trail0", "trail00"}[g.rng.Intn(3)]
-			if mirror {
-				class = []string{"lead0", "lead0", "lead00"}[g.rng.Intn(3)]
-			}
-			relayer := ev.host.regAddr[ev.host.accts[0].addr.String()][ev.name]
-			code, msg := uint64(0), ""
-			if g.rng.Intn(2) == 0 {
-				code, msg = 2, "onRecvPackt: binding is not exist" // a forged ERROR acknowledgement would refund
-			}
-			forged := w.evmGroundAck(code, msg, relayer, class, g.rng.Uint32())
-			if forged == nil {
-				return
-			}
-			hsh := pktSha(forged)
-			word := pktShift(hsh, mirror)
-			if bytes.Equal(word, hsh) {
-				return
-			}
-			ev.cur[string(ev.contract)].storage[string(target.slot)] = word
-			ev.cur[string(ev.contract)].nonce++
-			h := w.evmProvable(ev)
-			proof := ev.states[h].genuine(ev.contract, target.slot).json()
-			tag := "evm-shifted-word"
-			if mirror {
-				tag = "evm-shifted-word-mirror"
-			}
-			out := w.ack(ev.host, target.bz, forged, proof, g.evmHeight(h), g.rng.Intn(3), tag)
-			if out.ok {
-				target.acked = true // (only a broken verifier gets here)
-			}
+		if g.evmShiftedAck(ev, g.rng.Intn(3) == 0) {
 			return
 		}
 	}
@@ -1683,19 +1642,26 @@ func (g *pktGen) evmForgeAck(ev *pktEvm) {
 
 // tssSignerProof: for a message verified by a TSS client choose who signs (mostly the TSS account T, sometimes the given
 // other account) and what the proof field holds (the given bytes, nothing, the public TSS address, random bytes).
-func (g *pktGen) tssSignerProof(c *pktChain, other int, proof []byte) (int, []byte, string) {
-	signer, who := pktT, "tss-signer"
-	if g.rng.Intn(4) == 0 {
+func (g *pktGen) tssSignerProof(c *pktChain, name string, other int, proof []byte) (int, []byte, string) {
+	signer, who := c.tssAcct(name), "tss-signer"
+	switch g.rng.Intn(6) {
+	case 0:
 		signer, who = other, "other-signer"
-		if signer == pktT {
+		if signer == c.tssAcct(name) {
 			signer = 0
+		}
+	case 1: // the other TSS key: retired if it has been authoritative for this client, not yet in force otherwise
+		signer = pktT + pktT2 - c.tssAcct(name)
+		who = "tss-future-signer"
+		if c.tssEver[name][signer] {
+			who = "tss-retired-signer"
 		}
 	}
 	switch g.rng.Intn(4) {
 	case 0:
 		return signer, nil, who + "-proof-empty"
 	case 1:
-		return signer, []byte(c.tssAddr()), who + "-proof-tssaddr"
+		return signer, []byte(c.tssAddrOf(name)), who + "-proof-tssaddr"
 	case 2:
 		b := make([]byte, 1+g.rng.Intn(40))
 		g.rng.Read(b)
@@ -1712,6 +1678,10 @@ func (g *pktGen) doTss() {
 	ts := w.tsss[g.rng.Intn(len(w.tsss))]
 	c := ts.host
 	h := clienttypes.NewHeight(0, uint64(1+g.rng.Intn(50)))
+	if g.rng.Intn(100) < 22 {
+		g.doRotate(ts)
+		return
+	}
 	switch x := g.rng.Intn(100); {
 	case x < 45: // a packet from the TSS chain: delivered by T (accepted) or by somebody else (refused), any proof field
 		var pend []*pktEvmPacket
@@ -1728,7 +1698,7 @@ func (g *pktGen) doTss() {
 			ts.inSeq++
 			ts.in = append(ts.in, ep)
 		}
-		signer, proof, tag := g.tssSignerProof(c, g.rng.Intn(3), nil)
+		signer, proof, tag := g.tssSignerProof(c, ts.name, g.rng.Intn(3), nil)
 		out := w.recv(c, ep.bz, proof, h, signer, "tss-"+tag)
 		if out.ok {
 			ep.recvd = true
@@ -1762,13 +1732,13 @@ func (g *pktGen) doTss() {
 			return
 		}
 		ep := pend[g.rng.Intn(len(pend))]
-		signer, proof, tag := g.tssSignerProof(c, g.rng.Intn(3), nil)
+		signer, proof, tag := g.tssSignerProof(c, ts.name, g.rng.Intn(3), nil)
 		if g.rng.Intn(3) == 0 {
 			// the attack of the seeded change: not the TSS account, ProofAcked = the public TSS address
-			signer, proof, tag = g.rng.Intn(3), []byte(c.tssAddr()), "other-signer-proof-tssaddr"
+			signer, proof, tag = g.rng.Intn(3), []byte(c.tssAddrOf(ts.name)), "other-signer-proof-tssaddr"
 		}
 		ackBz := ep.ackBz
-		if signer != pktT && g.rng.Intn(2) == 0 {
+		if signer != c.tssAcct(ts.name) && g.rng.Intn(2) == 0 {
 			// a fabricated outcome
 			ackBz = w.defAckEnc(1, []byte{}, "forged", c.regAddr[c.tssAddr()][ts.name], ep.p.FeeOption)
 		}
@@ -1856,7 +1826,7 @@ func (g *pktGen) replayAfterClientOp(c *pktChain, name string) {
 		n++
 		proof, height, signer := rec.proof, rec.height, rec.signer
 		if c.kind[name] == "tss" {
-			signer = pktT
+			signer = c.tssAcct(name)
 			if g.rng.Intn(2) == 0 {
 				proof = nil
 			}
@@ -1882,9 +1852,279 @@ func (g *pktGen) replayAfterClientOp(c *pktChain, name string) {
 		n++
 		signer := a.signer
 		if c.kind[name] == "tss" {
-			signer = pktT
+			signer = c.tssAcct(name)
 		}
 		w.ack(c, a.packet, a.ack, a.proof, a.height, signer, "dup-after-client-op")
 	}
 	g.maybeCommit(c)
+}
+
+// doRotate: TSS key rotations by MsgUpdateClient inside packet histories — on the pure TSS counterparty (with forced
+// follow-ups: an acknowledgement / receive signed by the retired key, then by the new one) or on a client currently toggled
+// to TSS (the ordinary generators then meet retired / future signers through tssSignerProof).
+func (g *pktGen) doRotate(ts *pktTss) { g.doRotateWith(ts, g.rng.Intn(100), true) }
+
+// doRotateWith: x selects the scenario (see the switch); toggledToo: may pick a toggled client instead.
+func (g *pktGen) doRotateWith(ts *pktTss, x int, toggledToo bool) {
+	w := g.w
+	c, name := ts.host, ts.name
+	// sometimes a toggled client instead of the pure counterparty
+	if toggledToo && g.rng.Intn(4) == 0 {
+		var names []string
+		for _, ch := range w.chains {
+			for n, k := range ch.kind {
+				if k == "tss" && ch.toggled[n] {
+					names = append(names, ch.name+"|"+n)
+				}
+			}
+		}
+		sort.Strings(names)
+		if len(names) > 0 {
+			pick := strings.SplitN(names[g.rng.Intn(len(names))], "|", 2)
+			ch := w.byName[pick[0]]
+			cur := ch.tssAcct(pick[1])
+			w.rotate(ch, pick[1], pktT+pktT2-cur, cur, "toggled-client")
+			g.maybeCommit(ch)
+			return
+		}
+	}
+	cur := c.tssAcct(name)
+	other := pktT + pktT2 - cur
+	switch {
+	case x < 12: // refused: signed by the key that is not (yet / any more) the TSS address
+		w.rotate(c, name, other, other, "wrong-signer-other-key")
+		return
+	case x < 20: // refused: signed by an ordinary relayer
+		w.rotate(c, name, other, 0, "wrong-signer-relayer")
+		return
+	case x < 30: // to the address it already has
+		w.rotate(c, name, cur, cur, "same-address")
+		return
+	}
+	// make sure there is traffic in flight in both directions before the key changes
+	var pendOut, pendIn *pktEvmPacket
+	for _, ep := range ts.out {
+		if !ep.acked {
+			pendOut = ep
+		}
+	}
+	if pendOut == nil {
+		cs := w.callSpec(c, c, "n", func(b []byte) { g.rng.Read(b) })
+		if s := w.send(c, name, int64(1+g.rng.Intn(300)), cs, 0); s != nil {
+			relayer := c.regAddr[c.tssAddr()][name]
+			code, msg := uint64(0), ""
+			if g.rng.Intn(3) == 0 {
+				code, msg = 2, "onRecvPackt: binding is not exist"
+			}
+			pendOut = &pktEvmPacket{bz: s.bz, p: s.p, ackBz: w.defAckEnc(code, []byte{}, msg, relayer, s.p.FeeOption), outward: true}
+			ts.out = append(ts.out, pendOut)
+		}
+	}
+	for _, ep := range ts.in {
+		if !ep.recvd {
+			pendIn = ep
+		}
+	}
+	if pendIn == nil {
+		pendIn = w.tssPacket(ts, ts.inSeq, int64(1+g.rng.Intn(200)))
+		ts.inSeq++
+		ts.in = append(ts.in, pendIn)
+	}
+	if !w.rotate(c, name, other, cur, "rotation") {
+		return
+	}
+	retired, fresh := cur, other
+	if x >= 80 { // two rotations in a row: back again, the first key is authoritative once more
+		if w.rotate(c, name, cur, other, "rotation-back") {
+			retired, fresh = other, cur
+		}
+	}
+	if x >= 60 && x < 80 { // rotation, then a restart: the rotated address must survive the export / import
+		g.maybeCommit(c)
+		w.restart(c)
+	}
+	g.maybeCommit(c)
+	h := clienttypes.NewHeight(0, uint64(1+g.rng.Intn(50)))
+	proofs := [][]byte{nil, []byte(c.accts[retired].addr.String()), []byte(c.accts[fresh].addr.String())}
+	// acknowledgement: by the retired key (must be refused, the commitment stays), then by the new key (accepted)
+	if pendOut != nil {
+		w.ack(c, pendOut.bz, pendOut.ackBz, proofs[g.rng.Intn(3)], h, retired, "tss-retired-signer")
+		out := w.ack(c, pendOut.bz, pendOut.ackBz, proofs[g.rng.Intn(3)], h, fresh, "tss-new-signer")
+		if out.ok {
+			pendOut.acked = true
+			g.accAcks = append(g.accAcks, &pktAckRec{chain: c, packet: pendOut.bz, ack: pendOut.ackBz, proof: nil, height: h, signer: fresh})
+		}
+	}
+	// receive: the same
+	w.recv(c, pendIn.bz, proofs[g.rng.Intn(3)], h, retired, "tss-retired-signer")
+	out := w.recv(c, pendIn.bz, proofs[g.rng.Intn(3)], h, fresh, "tss-new-signer")
+	if out.ok {
+		pendIn.recvd = true
+		pendIn.ackBz = out.ackBz
+		g.accRecv = append(g.accRecv, &pktRecvRec{chain: c, packet: pendIn.bz, proof: nil, height: h, signer: fresh, epoch: c.restarts})
+	}
+	g.maybeCommit(c)
+}
+
+// prologue: directed scenarios that run in EVERY history, so that the small classes the floors name never depend on the
+// luck of a seed: one genuine receive per value-boundary class and EVM client, the TSS signer / proof-field combinations,
+// and the key-rotation scenarios.
+func (g *pktGen) prologue() {
+	w := g.w
+	for _, ev := range w.evms {
+		for _, class := range []string{"lead0", "lead00", "trail0"} {
+			ep := w.evmGroundPacket(ev, ev.inSeq, class, g.rng.Uint32())
+			if ep == nil {
+				continue
+			}
+			ev.inSeq++
+			ev.cur[string(ev.contract)].storage[string(ep.slot)] = pktSha(ep.bz)
+			ev.cur[string(ev.contract)].nonce++
+			ev.in = append(ev.in, ep)
+			h := w.evmProvable(ev)
+			proof := ev.states[h].genuine(ev.contract, ep.slot).json()
+			out := w.recv(ev.host, ep.bz, proof, g.evmHeight(h), 0, "evm-genuine-"+ev.kind)
+			if out.ok {
+				ep.recvd, ep.ackBz = true, out.ackBz
+				g.accRecv = append(g.accRecv, &pktRecvRec{chain: ev.host, packet: ep.bz, proof: proof, height: g.evmHeight(h), signer: 0, epoch: ev.host.restarts})
+				w.r.Count("evm.word." + class)
+				w.r.Count("evm.word." + class + "." + ev.kind + ".recv")
+			}
+		}
+		g.evmShiftedRecv(ev, false)
+		g.evmShiftedRecv(ev, true)
+		g.evmShiftedAck(ev, false)
+		w.commit(ev.host)
+	}
+	for _, ts := range w.tsss {
+		c := ts.host
+		h := clienttypes.NewHeight(0, 7)
+		auth := c.tssAcct(ts.name)
+		addr := []byte(c.tssAddrOf(ts.name))
+		// receives: TSS signer with the proof field = the TSS address / empty; another signer with the TSS address as proof
+		for _, v := range []struct {
+			signer int
+			proof  []byte
+			tag    string
+		}{{auth, addr, "tss-tss-signer-proof-tssaddr"}, {auth, nil, "tss-tss-signer-proof-empty"}, {0, addr, "tss-other-signer-proof-tssaddr"}} {
+			ep := w.tssPacket(ts, ts.inSeq, 5)
+			ts.inSeq++
+			ts.in = append(ts.in, ep)
+			out := w.recv(c, ep.bz, v.proof, h, v.signer, v.tag)
+			if out.ok {
+				ep.recvd, ep.ackBz = true, out.ackBz
+				g.accRecv = append(g.accRecv, &pktRecvRec{chain: c, packet: ep.bz, proof: v.proof, height: h, signer: v.signer, epoch: c.restarts})
+			}
+		}
+		// acknowledgements: the same three
+		for _, v := range []struct {
+			signer int
+			proof  []byte
+			tag    string
+		}{{0, addr, "tss-other-signer-proof-tssaddr"}, {auth, addr, "tss-tss-signer-proof-tssaddr"}, {auth, nil, "tss-tss-signer-proof-empty"}} {
+			cs := w.callSpec(c, c, "n", func(b []byte) { g.rng.Read(b) })
+			s := w.send(c, ts.name, 11, cs, 0)
+			if s == nil {
+				continue
+			}
+			w.r.Count("tss.sendout")
+			ep := &pktEvmPacket{bz: s.bz, p: s.p, ackBz: w.defAckEnc(0, []byte{}, "", c.regAddr[c.tssAddr()][ts.name], s.p.FeeOption), outward: true}
+			ts.out = append(ts.out, ep)
+			out := w.ack(c, ep.bz, ep.ackBz, v.proof, h, v.signer, v.tag)
+			if out.ok {
+				ep.acked = true
+				g.accAcks = append(g.accAcks, &pktAckRec{chain: c, packet: ep.bz, ack: ep.ackBz, proof: v.proof, height: h, signer: v.signer})
+			}
+		}
+		w.commit(c)
+		// key rotations: refused ones, a rotation, a rotation straight back, a rotation followed by a restart
+		g.doRotateWith(ts, 5, false)
+		g.doRotateWith(ts, 15, false)
+		g.doRotateWith(ts, 45, false)
+		g.doRotateWith(ts, 90, false)
+		g.doRotateWith(ts, 70, false)
+		w.commit(c)
+	}
+}
+
+// evmShiftedRecv: shifted-word forgery of a receive: forge the message first (hash H ending in zero bytes — mirror: starting
+// with zero bytes), let the contract really hold the shifted word 0^k‖H[0..32-k) (mirror: H[k..]‖0^k) under the slot,
+// prove that slot genuinely, submit the forged message.
+func (g *pktGen) evmShiftedRecv(ev *pktEvm, mirror bool) {
+	w := g.w
+	class := []string{"trail0", "trail0", "trail00"}[g.rng.Intn(3)]
+	if mirror {
+		class = []string{"lead0", "lead0", "lead00"}[g.rng.Intn(3)]
+	}
+	fp := w.evmGroundPacket(ev, ev.inSeq, class, g.rng.Uint32())
+	if fp == nil {
+		return
+	}
+	hsh := pktSha(fp.bz)
+	word := pktShift(hsh, mirror)
+	if bytes.Equal(word, hsh) {
+		return
+	}
+	ev.cur[string(ev.contract)].storage[string(fp.slot)] = word
+	ev.cur[string(ev.contract)].nonce++
+	h := w.evmProvable(ev)
+	proof := ev.states[h].genuine(ev.contract, fp.slot).json()
+	tag := "evm-shifted-word"
+	if mirror {
+		tag = "evm-shifted-word-mirror"
+	}
+	w.recv(ev.host, fp.bz, proof, g.evmHeight(h), 0, tag)
+}
+
+// evmShiftedAck: shifted-word forgery of an acknowledgement (see evmShiftedRecv); false if no pending packet could be found.
+func (g *pktGen) evmShiftedAck(ev *pktEvm, mirror bool) bool {
+	w := g.w
+	var target *pktEvmPacket
+	for _, a := range ev.out {
+		if !a.acked && !a.ackStored {
+			target = a
+		}
+	}
+	if target == nil {
+		g.evmSendOutWith(ev, -1, 0)
+		for _, a := range ev.out {
+			if !a.acked && !a.ackStored {
+				target = a
+			}
+		}
+	}
+	if target != nil {
+		class := []string{"trail0", "trail0", "trail00"}[g.rng.Intn(3)]
+		if mirror {
+			class = []string{"lead0", "lead0", "lead00"}[g.rng.Intn(3)]
+		}
+		relayer := ev.host.regAddr[ev.host.accts[0].addr.String()][ev.name]
+		code, msg := uint64(0), ""
+		if g.rng.Intn(2) == 0 {
+			code, msg = 2, "onRecvPackt: binding is not exist" // a forged ERROR acknowledgement would refund
+		}
+		forged := w.evmGroundAck(code, msg, relayer, class, g.rng.Uint32())
+		if forged == nil {
+			return true
+		}
+		hsh := pktSha(forged)
+		word := pktShift(hsh, mirror)
+		if bytes.Equal(word, hsh) {
+			return true
+		}
+		ev.cur[string(ev.contract)].storage[string(target.slot)] = word
+		ev.cur[string(ev.contract)].nonce++
+		h := w.evmProvable(ev)
+		proof := ev.states[h].genuine(ev.contract, target.slot).json()
+		tag := "evm-shifted-word"
+		if mirror {
+			tag = "evm-shifted-word-mirror"
+		}
+		out := w.ack(ev.host, target.bz, forged, proof, g.evmHeight(h), g.rng.Intn(3), tag)
+		if out.ok {
+			target.acked = true // (only a broken verifier gets here)
+		}
+		return true
+	}
+	return false
 }
